@@ -929,6 +929,12 @@ fn handle(g: &mut Global, req: &Request, t_recv: u64) -> Exchange {
     };
     if let Some(r) = replaced {
         resp = r;
+        // extra response headers of the rule (e.g. Retry-After)
+        if let (Some(rs), Some(h)) = (resp.as_mut(), frule.get("headers").and_then(|v| v.as_object())) {
+            for (k, v) in h {
+                rs.headers.push((k.clone(), v.as_str().map(|x| x.to_string()).unwrap_or_else(|| v.to_string())));
+            }
+        }
     } else if let Some(rj) = jws.as_mut().and_then(|j| j.reject.take()) {
         resp = Some(rj);
         extra["rejected_by_verifier"] = json!(true);
